@@ -255,28 +255,33 @@ def oracle(run):
             return [d for d in range(run.n) if snap['h2'][d][0] in OPEN or snap['h2'][d][1] in OPEN]
         return []
 
-    def signature(kind, c, snap):
+    def signatures(kind, c, snap):
+        """one signature per distinct cause among the streams involved: several known causes in one scenario
+        are each reported under their own class, and an unknown cause is never hidden behind a known one"""
         cs = involved(kind, c, snap)
-        causes = sorted({cause_of(d, snap) for d in cs})
-        classes = [cls_of(d) for d in cs]
-        cl = classes[0] if classes and all(x == classes[0] for x in classes) else \
-            (dict(NA) if not classes else {'handler_end': 'mixed', 'terminal_frame': 'mixed', 'reset_received': False,
-                                           'aexit_interrupted': False})
-        return dict(cl, kind=kind, cause=(causes[0] if len(causes) == 1 else ('n/a' if not causes else 'mixed')))
+        if not cs:
+            return [dict(NA, kind=kind, cause='n/a')]
+        out = []
+        for cause in sorted({cause_of(d, snap) for d in cs}):
+            classes = [cls_of(d) for d in cs if cause_of(d, snap) == cause]
+            cl = classes[0] if all(x == classes[0] for x in classes) else \
+                {'handler_end': 'mixed', 'terminal_frame': 'mixed', 'reset_received': False, 'aexit_interrupted': False}
+            out.append(dict(cl, kind=kind, cause=cause))
+        return out
 
     for chk in run.checks:
-        sig = signature(chk['kind'], chk['call'], chk['snap'])
-        key = tuple(sorted(sig.items()))
-        if key in seen:
-            continue
-        seen.add(key)
-        fails.append({'what': '%s (call %s at t=%s)' % (chk['kind'], chk['call'], chk['t']), 'signature': sig,
-                      'observed': chk})
+        for sig in signatures(chk['kind'], chk['call'], chk['snap']):
+            key = tuple(sorted(sig.items()))
+            if key in seen:
+                continue
+            seen.add(key)
+            fails.append({'what': '%s (call %s at t=%s)' % (chk['kind'], chk['call'], chk['t']), 'signature': sig,
+                          'observed': chk})
     if run.probe != 'ok':
-        sig = signature('probe-blocked' if run.probe == 'pending' else 'probe-failed', None, final)
-        fails.append({'what': 'a fresh unary call with MAX_CONCURRENT_STREAMS=1 after the history: %s' % run.probe,
-                      'signature': sig, 'observed': {'probe': run.probe, 'final': {k: final[k] for k in
-                                                     ('creg', 'sreg', 'out', 'in', 'h2', 'pending_tasks', 'held')}}})
+        for sig in signatures('probe-blocked' if run.probe == 'pending' else 'probe-failed', None, final):
+            fails.append({'what': 'a fresh unary call with MAX_CONCURRENT_STREAMS=1 after the history: %s' % run.probe,
+                          'signature': sig, 'observed': {'probe': run.probe, 'final': {k: final[k] for k in
+                                                         ('creg', 'sreg', 'out', 'in', 'h2', 'pending_tasks', 'held')}}})
     if getattr(run, 'peer_violations', 0):
         fails.append({'what': 'the client broke HTTP/2 rules towards the peer', 'signature': {'kind': 'h2-violation'},
                       'observed': run.peer_violations})
